@@ -9,15 +9,20 @@ import checklib
 
 
 def standard_flow(chk, symgen, gen_files, lemma_files, prop_file, search, n_quick, n_thorough,
-                  rule, coq_timeout=900, search_timeout=1500):
-    """T1 flow: regenerate model -> compile proofs -> numeric harness / failing-input search."""
+                  rule, coq_timeout=900, search_timeout=1500, extra_symgen=(), stages=None):
+    """T1 flow: regenerate model -> compile proofs -> numeric harness / failing-input search.
+    extra_symgen: further (script, output file, extra args) regeneration steps."""
     rc, out, _ = chk.bridge(symgen, [os.path.join(chk.build, gen_files[0])])
+    for script, target, extra in extra_symgen:
+        if rc == 0:
+            symgen = script
+            rc, out, _ = chk.bridge(script, [os.path.join(chk.build, target), *extra])
     proofs_ok = False
     if rc != 0:
         chk.obligations.extend(chk.theorem_names(os.path.join(checklib.COQ_PROPS, prop_file)))
         chk.broken.append({"file": symgen, "item": "model regeneration", "coqc_output": out[-1500:]})
     else:
-        proofs_ok = chk.compile_chain(gen_files, lemma_files, prop_file, timeout=coq_timeout)
+        proofs_ok = chk.compile_chain(gen_files, lemma_files, prop_file, timeout=coq_timeout, stages=stages)
     n = n_thorough if chk.tier == "thorough" else n_quick
     if not proofs_ok:
         n = max(n, n_thorough)  # failing-input search: go deep
